@@ -12,7 +12,8 @@ CONSTANTS Mode, EmitCases, MaxEntries,
 Limits == {64, 100, 1000}
 Entries == {"server", "tower", "wsconnect", "httpcall"}
 TransportsOf(e) == CASE e = "wsconnect" -> {"ws"} [] e = "httpcall" -> {"http"} [] OTHER -> {"http", "ws"}
-Framings(tr) == IF tr = "ws" THEN {"frame"} ELSE {"cl1", "nocl1", "cl2", "nocl2", "nocl3"}   \* Content-Length yes/no x chunks
+Framings(tr) == IF tr = "ws" THEN {"frame", "frameBp"}                                          \* Bp: while the connection's outbound side is saturated
+                ELSE {"cl1", "nocl1", "cl2", "nocl2", "nocl3"}                                   \* Content-Length yes/no x chunks
 
 SizeChoices(req, resp) == {req - 1, req, req + 1, 4 * req, resp - 1, resp, resp + 1}
 (* the limit actually applied to inbound frames by each entry point *)
@@ -32,7 +33,7 @@ SingleCases == [m : RespLimits, delta : -2..2, idw : {"d1", "d20", "str"}, conte
 
 Init ==
   /\ phase = "new" /\ lens = <<>> /\ aborted = FALSE
-  /\ CASE Mode = "req"    -> /\ c \in {x \in [entry : Entries, tr : {"http", "ws"}, framing : {"frame", "cl1", "nocl1", "cl2", "nocl2", "nocl3"},
+  /\ CASE Mode = "req"    -> /\ c \in {x \in [entry : Entries, tr : {"http", "ws"}, framing : {"frame", "frameBp", "cl1", "nocl1", "cl2", "nocl2", "nocl3"},
                                               req : Limits, resp : Limits, k : 1..7] :
                                         x.tr \in TransportsOf(x.entry) /\ x.framing \in Framings(x.tr)}
                              /\ len = 0
@@ -61,9 +62,15 @@ AppendEntry(l) ==
              /\ IF l + len + 1 > c.m THEN aborted' = TRUE /\ len' = len
                 ELSE aborted' = FALSE /\ len' = len + l + 1
              /\ UNCHANGED c
-FinishBatch == /\ Mode = "batch" /\ phase = "appending" /\ phase' = "done" /\ UNCHANGED <<c, len, lens, aborted>>
+(* a notification among the entries runs but appends nothing: the reply, and so the limit, does not see it (entry length 0) *)
+NCalls(s) == Cardinality({i \in 1..Len(s) : s[i] > 0})
+AppendNotif == /\ Mode = "batch" /\ phase \in {"new", "appending"} /\ ~aborted /\ Len(lens) < MaxEntries
+               /\ Len(lens) - NCalls(lens) < 2
+               /\ lens' = Append(lens, 0) /\ phase' = "appending"
+               /\ UNCHANGED <<c, len, aborted>>
+FinishBatch == /\ Mode = "batch" /\ phase = "appending" /\ NCalls(lens) > 0 /\ phase' = "done" /\ UNCHANGED <<c, len, lens, aborted>>
 
-Next == EvalReq \/ EvalSingle \/ (\E l \in LenChoices : AppendEntry(l)) \/ FinishBatch
+Next == EvalReq \/ EvalSingle \/ (\E l \in LenChoices : AppendEntry(l)) \/ AppendNotif \/ FinishBatch
 
 (* what is put on the wire *)
 WireLen == IF Mode = "batch" THEN len ELSE len      \* batch: trailing ',' becomes ']' - same length
@@ -73,7 +80,7 @@ SumTo(s, i) == IF i = 0 THEN 0 ELSE s[i] + SumTo(s, i - 1)
 SumSeq(s) == SumTo(s, Len(s))
 Inv_FitsIsSentUnchanged ==
   Mode = "batch" => (phase = "done" =>
-     (aborted <=> (1 + Len(lens) + SumSeq(lens) > c.m)))
+     (aborted <=> (1 + NCalls(lens) + SumSeq(lens) > c.m)))
 Inv_ReqOutcomeIgnoresRespLimit == Mode = "req" => Outcome(ReqX) = Spec_Outcome(ReqX)
 
 Emit == (EmitCases /\ phase = "done") =>
